@@ -103,6 +103,14 @@ class Circuit:
 
     __rmul__ = __mul__
 
+    def copy(self) -> 'Circuit':
+        return Circuit(self.items)
+
+    def __eq__(self, other):
+        return isinstance(other, Circuit) and normal_form(self) == normal_form(other)
+
+    __hash__ = None
+
     def __iter__(self):
         return iter(self.items)
 
